@@ -37,10 +37,13 @@ ASSUMPTIONS = [
     "the same dask source tree); the classic engine runs in the worker process with query planning off (asserted)",
     "the alphabet is restricted a priori to operations the expression engine implements; NotImplementedError from it is a refusal (counted)",
     "float results are compared with rtol=1e-9*size (summation order may differ), integer/bool results exactly; dtype is part of the value",
+    "a deviation from NumPy that the classic engine shows in the same way on the same program (same failure class) belongs to the shared "
+    "classic code (C19-C27) and is only counted (shared_with_classic); a failure already shown by the program's prefix is reported at the "
+    "prefix (which is a program of its own) and only counted downstream (inherited_from_prefix)",
 ]
 
 ROOT = os.path.dirname(os.path.dirname(os.path.dirname(os.path.abspath(__file__))))
-BASES = [(5,), (2, 3), (3, 4), (2, 2, 2)]
+BASES = [(5,), (2, 3), (3, 2), (3, 4), (2, 2, 2)]
 DEPTH2_BASES = [(5,), (2, 3), (3, 2), (2, 2, 2)]  # 40 chunkings
 
 
@@ -55,8 +58,8 @@ def make_base(xp, kind, shp, ch, seed):
     """xp is numpy or the dask.array namespace of the running interpreter"""
     is_np = xp is np
     kw = {} if is_np else {"chunks": ch}
-    if kind == "fa":
-        x = arr.data(shp, seed)
+    if kind in ("fa", "fa_f4"):
+        x = arr.data(shp, seed, dtype="i8" if kind == "fa" else "f4")
         return x if is_np else xp.from_array(x, chunks=ch)
     if kind == "arange":
         return xp.arange(1, shp[0] + 1, **kw)
@@ -73,8 +76,8 @@ def make_base(xp, kind, shp, ch, seed):
     raise ValueError(kind)
 
 
-BASE_KINDS_1D = ["fa", "arange", "arange_f", "linspace", "ones", "full", "zeros_i"]
-BASE_KINDS_ND = ["fa", "ones", "full"]
+BASE_KINDS_1D = ["fa", "fa_f4", "arange", "arange_f", "linspace", "ones", "full"]
+BASE_KINDS_ND = ["fa", "fa_f4", "full"]
 
 
 # ---------------------------------------------------------------------------------------------- steps
@@ -154,6 +157,7 @@ def _steps():
     both("prod0", lambda xp, x: x.prod(axis=0), need=1)
     both("any0", lambda xp, x: (x > 2).any(axis=0), need=1)
     both("all_all", lambda xp, x: (x > 2).all())
+    both("max_gt", lambda xp, x: (x > 2).max(axis=-1), need=1)  # min/max of a non-default dtype
     split("min_split", lambda da, x: x.min(axis=0, split_every=2), lambda x: x.min(axis=0), need=1)
     split("sum_split", lambda da, x: x.sum(split_every=2), lambda x: x.sum())
     both("nansum_last", lambda xp, x: xp.nansum(x, axis=-1), need=1)
@@ -210,7 +214,7 @@ ALL = [
     "add1", "rsub", "mul_self", "gt", "truediv", "mod3", "neg", "abs", "sqrt", "np_add", "astype_f4", "clip", "and_", "bcast", "add_rev",
     "add_rechunk", "add_sumkeep",
     "tail", "head2", "mid", "rev", "negstep2", "step_last", "int_last", "int0", "newaxis", "ellip_none", "list0", "daidx",
-    "sum0", "sum_all", "sum_keep", "sum01", "mean_keep", "mean_all", "max_last", "prod0", "any0", "all_all", "min_split", "sum_split",
+    "sum0", "sum_all", "sum_keep", "sum01", "mean_keep", "mean_all", "max_last", "prod0", "any0", "all_all", "max_gt", "min_split", "sum_split",
     "nansum_last",
     "rechunk1", "rechunk2", "rechunk_ax0", "rechunk_whole", "rechunk_bal",
     "concat", "concat_last", "stack_last", "stack0",
@@ -245,7 +249,7 @@ def plans(tier):
 def RULE(tier):
     if tier == "quick":
         prog = (
-            f"every depth-1 program over the {len(ALL)}-step alphabet on every base kind (from_array, arange int/float, linspace, ones, full, zeros) "
+            f"every depth-1 program over the {len(ALL)}-step alphabet on every base kind (from_array int64/float32, arange int/float, linspace, ones, full) "
             f"and every depth-2 program over the {len(CORE)}-step core alphabet on from_array bases {DEPTH2_BASES}"
         )
     else:
@@ -320,8 +324,8 @@ def eval_dask(case, seed, expr):
         warnings.simplefilter("ignore")
         try:
             d = make_base(da, kind, shp, ch, seed)
-            step = "base"
-            for step in prog:
+            step, si = "base", -1
+            for si, step in enumerate(prog):
                 d = S[step](da, d)
             out["shape"] = tuple(d.shape)
             out["dtype"] = str(d.dtype)
@@ -329,7 +333,7 @@ def eval_dask(case, seed, expr):
         except Hang:
             raise
         except Exception as e:  # noqa: BLE001
-            out.update(status="build-exc", exc=_exc(e), step=step)
+            out.update(status="build-exc", exc=_exc(e), step=step, step_index=si)
             return out
         try:
             if expr:
@@ -474,34 +478,48 @@ def ask_child(case, seed):
 
 # ---------------------------------------------------------------------------------------------- the oracle
 def np_eval(case, seed):
+    """-> list of NumPy values: the base and the result of every step"""
     _, kind, shp, ch, prog = case
     S = steps()
-    y = make_base(np, kind, shp, ch, seed)
-    for i, s in enumerate(prog):
+    ys = [np.asanyarray(make_base(np, kind, shp, ch, seed))]
+    for s in prog:
         if s == "mb_chunks":
-            _need(y, 1)
-            y = np_mb_chunks(y, ch)
+            _need(ys[-1], 1)
+            y = np_mb_chunks(ys[-1], ch)
         else:
-            y = S[s](np, y)
-    return np.asanyarray(y)
+            y = S[s](np, ys[-1])
+        ys.append(np.asanyarray(y))
+    return ys
 
 
 def _tol(want):
     return 1e-9 * max(int(want.size), 1) if want.dtype.kind in "fc" else 0.0
 
 
-def known_class(case, cls, got):
+# steps that combine the array with a PYTHON scalar
+SCALAR_STEPS = {"add1", "rsub", "truediv", "mod3", "clip", "concat_last"}
+DEFAULT_DTYPES = ("int64", "float64", "bool", "complex128")
+
+
+def known_class(case, cls, got, ys):
     """narrow input classes of recorded findings (C30.findings.json) -> (op, suffix) or None"""
     prog = case[4]
     msg = got.get("exc", ("", ""))[1]
+    last = prog[-1] if prog else "base"
     if cls == "expr-raises:AttributeError" and got.get("step") == "list0" and "'Shuffle' object has no attribute '_token'" in msg:
         return "list0", "list-index"
-    if cls == "expr-raises:ValueError" and "daidx" in prog and msg.startswith("Shapes do not align"):
+    if cls == "expr-raises:ValueError" and last == "daidx" and msg.startswith("Shapes do not align"):
         return "daidx", "offset-dep-misaligned"
+    if cls == "wrong-dtype" and last in SCALAR_STEPS and str(ys[-2].dtype) not in DEFAULT_DTYPES:
+        return "elemwise", "python-scalar-promotes"
+    if cls == "lazy-dtype" and last in ("max_last", "max_gt", "min_split") and tuple(got.get("shape", (1,))) == () and got.get("dtype") == "int64":
+        return "minmax", "0-d-result"
     return None
 
 
-def run_case(case, ctx):
+def judge(case, seed, counts):
+    """Evaluate one program in NumPy, the classic engine and the expression engine.
+    -> None (not applicable / refused) | (got, outcome, [(key, detail)...])"""
     da = _da()
     if da._array_expr_enabled():
         raise HarnessError("C30: query planning is enabled in the worker process; the classic engine must run here")
@@ -510,56 +528,62 @@ def run_case(case, ctx):
     with warnings.catch_warnings():
         warnings.simplefilter("ignore")
         try:
-            want = np_eval(case, ctx.seed)
+            ys = np_eval(case, seed)
+            want = ys[-1]
         except Hang:
             raise
         except Exception:  # noqa: BLE001
-            ctx.count("inapplicable")
-            return
-    classic = eval_dask(case, ctx.seed, expr=False)
-    got = ask_child(case, ctx.seed)
+            counts.append("inapplicable")
+            return None
+    classic = eval_dask(case, seed, expr=False)
+    got = ask_child(case, seed)
     if got["status"] == "child-error":
         raise HarnessError(f"C30: child failed outside the evaluated program: {got['exc']}")
 
-    # failure class of the classic engine on the same program (only used to mark shared defects in the key)
+    # failure class of the classic engine on the same program: a deviation from NumPy that the classic engine shows in the
+    # same way belongs to the shared classic code (properties C19-C27), not to the expression engine
     if classic["status"] != "ok":
         classic_cls = f"expr-raises:{classic['exc'][0]}"
-    elif arr.equal(classic["value"], want, rtol=_tol(want)):
+    elif arr.equal(classic["value"], want, exact_dtype=False, rtol=_tol(want)):
         classic_cls = "wrong-value"
+    elif classic["value"].dtype != want.dtype:
+        classic_cls = "wrong-dtype"
     else:
         classic_cls = None
-    if classic_cls:
-        ctx.count("classic_engine_deviates")
+
+    found = []
 
     def report(cls, detail):
+        if cls == classic_cls:
+            counts.append("shared_with_classic")
+            return
         op = got.get("step", last)  # the step that failed to build, else the program's last step
-        k = known_class(case, cls, got)
+        k = known_class(case, cls, got, ys)
         sub = ""
         if k:
             op, sub = k[0], ":" + k[1]
-        also = ":classic-too" if cls == classic_cls else ""
-        ctx.violation(f"{op}:{cls}{sub}{also}", case, detail)
+        found.append((f"{op}:{cls}{sub}", detail))
 
-    nontrivial = any(len(c) >= 2 for c in case[3])
     if got["status"] != "ok":
         name, msg = got["exc"]
         if name == "NotImplementedError":
-            ctx.count("rejected")
-            return
-        ctx.case(case, nontrivial=nontrivial, outcome=(got["status"], last, name))
+            counts.append("rejected")
+            return None
         where = "building" if got["status"] == "build-exc" else "computing"
         report(f"expr-raises:{name}", f"expression engine raised {name}({msg!r}) while {where}; NumPy gives {want!r}; classic engine: {classic['status']}")
-        return
-    ctx.case(case, nontrivial=nontrivial, outcome=(got["shape"], got["dtype"], got["chunks"]))
+        return got, (got["status"], got.get("step", last), name), found
     v = got["value"]
-    why = arr.equal(v, want, rtol=_tol(want))
+    outcome = (got["shape"], got["dtype"], got["chunks"])
+    why = arr.equal(v, want, exact_dtype=False, rtol=_tol(want))
     if why:
         report("wrong-value", f"expr engine vs NumPy: {why}")
-        return
+        return got, outcome, found
+    if v.dtype != want.dtype:
+        report("wrong-dtype", f"expr engine computes dtype {v.dtype}, NumPy {want.dtype} (classic engine: {classic.get('dtype')})")
     if tuple(got["shape"]) != v.shape:
         report("lazy-shape", f"lazy shape {got['shape']} != computed {v.shape}")
     if got["dtype"] != str(v.dtype):
-        report("lazy-dtype", f"lazy dtype {got['dtype']} != computed {v.dtype}")
+        report("lazy-dtype", f"lazy dtype {got['dtype']} != computed {v.dtype} (classic engine lazy dtype: {classic.get('dtype')})")
     if got["block_problem"]:
         report("block-shape", f"optimized expression: {got['block_problem']}")
     elif got["blocks_value"] is None or arr.equal(got["blocks_value"], v, exact_dtype=False, rtol=_tol(want)):
@@ -568,6 +592,33 @@ def run_case(case, ctx):
         report("optimized-chunks", f"chunks change under optimize(): {got['chunks']} -> {got['opt_chunks']}")
     if classic["status"] == "ok" and tuple(classic["chunks"]) != tuple(got["chunks"]):
         report("chunks-differ-from-classic", f"expr engine chunks {got['chunks']} != classic engine chunks {classic['chunks']}")
+    return got, outcome, found
+
+
+def run_case(case, ctx):
+    counts = []
+    res = judge(case, ctx.seed, counts)
+    for c in counts:
+        ctx.count(c)
+    if res is None:
+        return
+    got, outcome, found = res
+    prog = case[4]
+    ctx.case(case, nontrivial=any(len(c) >= 2 for c in case[3]), outcome=outcome)
+    if not found:
+        return
+    # attribution: every prefix of a program is a program of its own in the enumeration.  A failure that the prefix already
+    # shows (an expression that cannot be built, a wrong dtype carried along) is reported there, not again downstream.
+    if len(prog) >= 2:
+        if got["status"] == "build-exc" and got.get("step_index", len(prog) - 1) < len(prog) - 1:
+            ctx.count("inherited_from_prefix")
+            return
+        pres = judge(case[:4] + (prog[:-1],), ctx.seed, [])
+        if pres is not None and pres[2]:
+            ctx.count("inherited_from_prefix")
+            return
+    for key, detail in found:
+        ctx.violation(key, case, detail)
 
 
 def run_shard(shard, ctx):
